@@ -779,6 +779,7 @@ def spec_id_rules(repo: Repo, R: Report, run_nf: ast.AST) -> None:
     if len(plan_calls) != 1:
         raise AnalysisError(f"_run: expected one expand_run_space call, found {len(plan_calls)}")
     planned_from = _origins(run_nf, plan_calls[0][1])
+    defaults_at_parse_rules(repo, R, plan_calls[0][0])
     parsed = lambda e: isinstance(e, ast.Attribute) and e.attr == "run_space" and any(isinstance(v, ast.Call) and call_attr(v) == "parse_pipeline_config" for v in _origins(run_nf, e.value))
     cli_parsed = bool(vals) and len(hashed) == len(vals) and all(parsed(h) for hs in hashed for h in _origins(run_nf, hs)) and len(planned_from) == 1 and all(_same(h, planned_from[0]) for hs in hashed for h in _origins(run_nf, hs))
     R.check(cli_parsed, r_sid, CLI, "_run", "identity_service.compute(asdict(pipeline_cfg.run_space))", "the CLI does not hash asdict(parsed run space) of the very block it expands into the plan", cc.lineno)
@@ -833,10 +834,12 @@ def parse_agreement_rules(repo: Repo, R: Report, ppc, builder_mod, csid: ast.AST
     rets = [r for r in walk_no_nested(pnf) if isinstance(r, ast.Return) and r.value is not None]
     ctor_calls = [o for r in rets for o in _origins(pnf, r.value) if isinstance(o, ast.Call)]
     stored_args: List[Tuple[ast.Call, ast.AST]] = []
+    ctor_hits: List[Tuple[ast.Call, Tuple]] = []
     for c in ctor_calls:
         r = repo.resolve_name(pmod, c.func, c) if isinstance(c.func, (ast.Name, ast.Attribute)) else None
         if r is None or not isinstance(r[1], ast.ClassDef):
             continue
+        ctor_hits.append((c, r))
         init = repo.method(r[0], r[1], "__init__")
         arg: Optional[ast.AST] = None
         if init is not None and isinstance(init[1], FuncNode):
@@ -887,6 +890,8 @@ def parse_agreement_rules(repo: Repo, R: Report, ppc, builder_mod, csid: ast.AST
             if id(rt[1]) not in located:
                 located.add(id(rt[1]))
                 block_location_rules(repo, R, ppc, rt[1], block_params[0], builder_mod)
+                if block_params[0] in rb:
+                    launch_activation_rules(repo, R, ppc, pnf, rb[block_params[0]], ctor_hits)
             for p in [p for p in rb if p != block_params[0]]:
                 a, b2 = rb[p], ib[p]
                 same = isinstance(a, ast.Constant) and isinstance(b2, ast.Constant) and type(a.value) is type(b2.value) and a.value == b2.value
@@ -898,6 +903,173 @@ def parse_agreement_rules(repo: Repo, R: Report, ppc, builder_mod, csid: ast.AST
                 R.violation(r_pa, site[0], site[1], norm(site[2])[:100],
                             f"the runtime parses the run-space block with `{p}={norm(a)[:40]}` ({rel_p}:{rc.lineno}), inspection with `{p}={norm(b2)[:40]}` ({BUILDER}:{ic.lineno}), and `{p}` takes part in building the parsed value in {qualname_of(rt[1])}: for every block this option touches the two sides hash different representations - `inspect` prints another spec id than run_space_start carries",
                             site[2].lineno)
+
+
+# ------------------------------------------------- D1 one representation per meaning: defaults are filled in by the parser
+
+def _truthy_const(e: Optional[ast.AST]) -> bool:
+    return isinstance(e, ast.Constant) and e.value is not None and not isinstance(e.value, bool) and isinstance(e.value, (str, int, float, bytes)) and bool(e.value)
+
+
+def defaults_at_parse_rules(repo: Repo, R: Report, plan_call: ast.Call) -> None:
+    """The spec id hashes the *parsed* block, so it is invariant under spelling out a default only if the parser stores the
+    same value for `key omitted` and `key: <default>`.  A consumer of the parsed block (the planner _run expands it with and
+    what it calls in its module) that reads `<field> or <constant>` / `<constant> if <field> is None else <field>` for a
+    field the schema allows to be None gives `None` the meaning of `<constant>`: two stored values, one plan, two ids.
+    Types are followed from the planner's specification parameter through the dataclass annotations of the schema."""
+    r_da = R.rule("C09-D1-defaults-at-parse", "a default of the run-space block is filled in where the block is parsed, not where it is consumed: the planner (the function _run expands the hashed block with, and what it reaches in its module) never substitutes a non-empty constant for an unset (None) field of the parsed specification - `spec.field or \"c\"`, `\"c\" if spec.field is None else spec.field` - when the schema lets that field be None.  Otherwise `key omitted` (stored None) and `key: c` (stored \"c\") plan the same runs but are hashed differently: the spec id - in inspect and in the trace alike - changes under the cosmetic edit of spelling out the default", 1)
+    cli_mod = repo.module(CLI)
+    targets = [x for x in repo.resolve_call(cli_mod, plan_call) if isinstance(x[1], FuncNode)]
+    if len(targets) != 1:
+        raise AnalysisError(f"_run: the planner call `{norm(plan_call)[:60]}` does not resolve to one function of the package")
+    pm, pf = targets[0]
+    fns = [n for m, n, _p in repo.call_graph_closure([(pm, pf)], stop=lambda m, n: m is not pm).values() if m is pm]
+
+    def class_in(mod, ann: Optional[ast.AST]) -> Optional[Tuple[object, ast.ClassDef]]:
+        """The package class an annotation names (first one found: Optional[X], List[X], "X", X | None)."""
+        if ann is None:
+            return None
+        if isinstance(ann, ast.Constant) and isinstance(ann.value, str):
+            try:
+                ann = ast.parse(ann.value, mode="eval").body
+            except SyntaxError:
+                return None
+        for x in ast.walk(ann):
+            if isinstance(x, (ast.Name, ast.Attribute)):
+                r = repo.resolve_name(mod, x) if isinstance(x, ast.Name) else None
+                if r is not None and isinstance(r[1], ast.ClassDef):
+                    return r
+            if isinstance(x, ast.Constant) and isinstance(x.value, str) and x is not ann:
+                r = class_in(mod, x)
+                if r is not None:
+                    return r
+        return None
+
+    def fields_of(tc) -> Dict[str, ast.AnnAssign]:
+        out: Dict[str, ast.AnnAssign] = {}
+        for _m, c in reversed(repo.mro(tc[0], tc[1])):
+            for st in c.body:
+                if isinstance(st, ast.AnnAssign) and isinstance(st.target, ast.Name):
+                    out[st.target.id] = st
+        return out
+
+    def field_cls(tc, attr: str):
+        for m, c in repo.mro(tc[0], tc[1]):
+            for st in c.body:
+                if isinstance(st, ast.AnnAssign) and isinstance(st.target, ast.Name) and st.target.id == attr:
+                    return class_in(m, st.annotation)
+        return None
+
+    def nullable(tc, attr: str) -> bool:
+        st = fields_of(tc).get(attr)
+        if st is None:
+            return False
+        if st.value is not None and _is_none(st.value):
+            return True
+        txt = ast.unparse(st.annotation)
+        return "Optional" in txt or "None" in txt
+
+    # types of names: per function, name -> class (parameters by annotation or by what the callers pass; locals by flow)
+    env: Dict[int, Dict[str, Tuple[object, ast.ClassDef]]] = {id(f): {} for f in fns}
+    for f in fns:
+        for a in f.args.posonlyargs + f.args.args + f.args.kwonlyargs:
+            tc = class_in(pm, a.annotation)
+            if tc is not None:
+                env[id(f)][a.arg] = tc
+
+    def typeof(f: ast.AST, e: Optional[ast.AST]):
+        if isinstance(e, ast.Name):
+            return env[id(f)].get(e.id)
+        if isinstance(e, ast.Attribute):
+            b = typeof(f, e.value)
+            return field_cls(b, e.attr) if b is not None else None
+        if isinstance(e, ast.Subscript):
+            return typeof(f, e.value)
+        if isinstance(e, ast.Call) and call_name(e) in ("enumerate", "list", "tuple", "sorted", "reversed", "iter", "next") and e.args:
+            return typeof(f, e.args[0])
+        if isinstance(e, ast.IfExp):
+            return typeof(f, e.body) or typeof(f, e.orelse)
+        if isinstance(e, ast.BoolOp):
+            return next((t for t in (typeof(f, v) for v in e.values) if t is not None), None)
+        if isinstance(e, ast.NamedExpr):
+            return typeof(f, e.value)
+        return None
+
+    def bind(f: ast.AST, name: str, tc) -> bool:
+        if tc is None or name in env[id(f)]:
+            return False
+        env[id(f)][name] = tc
+        return True
+    changed, rounds = True, 0
+    while changed and rounds < 8:
+        changed, rounds = False, rounds + 1
+        for f in fns:
+            for n in walk_no_nested(f):
+                if isinstance(n, (ast.Assign, ast.AnnAssign)) and n.value is not None:
+                    for t in (n.targets if isinstance(n, ast.Assign) else [n.target]):
+                        if isinstance(t, ast.Name):
+                            changed |= bind(f, t.id, typeof(f, n.value))
+                elif isinstance(n, ast.NamedExpr) and isinstance(n.target, ast.Name):
+                    changed |= bind(f, n.target.id, typeof(f, n.value))
+                elif isinstance(n, (ast.For, ast.comprehension)):
+                    tgt, it = n.target, n.iter
+                    if isinstance(it, ast.Call) and call_name(it) == "enumerate" and isinstance(tgt, ast.Tuple) and len(tgt.elts) == 2:
+                        tgt = tgt.elts[1]
+                    if isinstance(tgt, ast.Name):
+                        changed |= bind(f, tgt.id, typeof(f, it))
+                elif isinstance(n, ast.Call):
+                    for m2, callee in repo.resolve_call(pm, n):
+                        if m2 is pm and isinstance(callee, FuncNode) and id(callee) in env:
+                            b = _bind_args(callee, n, skip_first=_is_method(callee) and isinstance(n.func, ast.Attribute))
+                            for pname, arg in (b or {}).items():
+                                changed |= bind(callee, pname, typeof(f, arg))
+    if not env[id(pf)]:
+        raise AnalysisError(f"{pm.rel}:{qualname_of(pf)}: the class of the parsed run-space specification it plans from is not known from its annotations")
+
+    def unset_field(f: ast.AST, x: ast.AST):
+        """(class, attr) when *x* reads a field of the parsed specification that the schema lets be None."""
+        if isinstance(x, ast.Attribute):
+            b = typeof(f, x.value)
+            if b is not None and nullable(b, x.attr):
+                return b, x.attr
+        return None
+
+    def none_test(t: ast.AST) -> Optional[Tuple[ast.AST, bool]]:  # (operand, True when the test holds for None)
+        if isinstance(t, ast.Compare) and len(t.ops) == 1 and _is_none(t.comparators[0]) and isinstance(t.ops[0], (ast.Is, ast.IsNot, ast.Eq, ast.NotEq)):
+            return t.left, isinstance(t.ops[0], (ast.Is, ast.Eq))
+        if isinstance(t, ast.UnaryOp) and isinstance(t.op, ast.Not):
+            return t.operand, True
+        return (t, False) if isinstance(t, (ast.Attribute, ast.Name)) else None
+    seen_fields: Set[Tuple[str, str]] = set()
+    bad: List[Tuple[ast.AST, ast.AST, Tuple, ast.AST]] = []
+    for f in fns:
+        for x in walk_no_nested(f):
+            if isinstance(x, ast.Attribute):
+                uf = unset_field(f, x)
+                if uf is not None:
+                    seen_fields.add((uf[0][1].name, uf[1]))
+            if isinstance(x, ast.BoolOp) and isinstance(x.op, ast.Or) and _truthy_const(x.values[-1]):
+                for v in x.values[:-1]:
+                    uf = unset_field(f, v)
+                    if uf is not None:
+                        bad.append((f, x, uf, x.values[-1]))
+            elif isinstance(x, ast.IfExp):
+                nt = none_test(x.test)
+                if nt is not None:
+                    uf = unset_field(f, nt[0])
+                    chosen, other = (x.body, x.orelse) if nt[1] else (x.orelse, x.body)
+                    # the constant stands in for the field itself only when the other arm is the field
+                    if uf is not None and _truthy_const(chosen) and _same(other, nt[0]):
+                        bad.append((f, x, uf, chosen))
+    for f, x, (tc, attr), c in bad:
+        R.violation(r_da, pm.rel, qualname_of(f), norm(x)[:100],
+                    f"the planner gives an unset `{tc[1].name}.{attr}` (None in the parsed block - the schema allows it) the meaning of `{norm(c)}`: a block that omits the key and one that spells out `{attr}: {c.value}` plan the same runs, but asdict() of the parsed block - what run_space_spec_id hashes, in `inspect` and in run_space_start alike - holds null for one and {norm(c)} for the other, so the spec id (and every launch id derived from it) changes under a cosmetic edit; fill the default in where the block is parsed",
+                    getattr(x, "lineno", f.lineno))
+    flagged = {(tc[1].name, attr) for _f, _x, (tc, attr), _c in bad}
+    for cname, attr in sorted(seen_fields - flagged):
+        R.ok(r_da, pm.rel, qualname_of(pf), f"{cname}.{attr}: no non-empty constant stands in for None in the planner")
+    if not seen_fields:
+        raise AnalysisError(f"{pm.rel}:{qualname_of(pf)}: no read of a nullable field of the parsed run-space specification found in the planner (type flow lost)")
 
 
 # --------------------------------------------------------------- D1 the parsed block is hashed as it was parsed
@@ -1768,6 +1940,401 @@ def block_location_rules(repo: Repo, R: Report, ppc, parser_fn: ast.AST, block_p
     if unknown:
         raise AnalysisError(f"block location: the value of `{norm(unknown[0])[:80]}` is not decided by the lookup model (.get / [..] / is None / isinstance / in / or-defaults)")
     R.ok(r_bl, BUILDER, qn_i, stmt)
+
+
+# ------------------------------------------------------------- D2 a declared run space is executed as a launch
+
+_U, _T, _F = "U", "T", "F"
+
+
+class _ActVal:
+    __slots__ = ("truth", "tag")
+
+    def __init__(self, truth, tag=None):
+        self.truth, self.tag = frozenset(truth), tag
+
+    def __eq__(self, o):
+        return isinstance(o, _ActVal) and self.truth == o.truth and self.tag == o.tag
+
+    def __hash__(self):
+        return hash((self.truth, self.tag))
+
+
+class _Activation:
+    """Abstract run of _run on ONE scenario: the loaded configuration declares a run-space block under the top-level key the
+    parser reads it from, the block carries nothing beyond defaults (every field of the parsed block has its schema
+    default), and the command line may or may not carry any option.  Values are sets of truth values {T, F} plus U (not
+    decided by this model), with a role tag for the objects the scenario talks about: the argparse namespace, the object the
+    configuration parser returns, its raw-mapping attribute, its parsed run-space attribute.  Structured interpretation:
+    an `if` on a decided test takes that arm, on a free test (command line) joins both arms, on an undecided test makes
+    every name the arms disagree on undecided."""
+
+    def __init__(self, repo: Repo, mod, args_param: str, is_parse_call, raw_attrs: Set[str], parsed_attr: str, field_truth, top_keys: Set[str]):
+        self.repo, self.mod, self.args_param, self.is_parse_call = repo, mod, args_param, is_parse_call
+        self.raw_attrs, self.parsed_attr, self.field_truth, self.top_keys = raw_attrs, parsed_attr, field_truth, top_keys
+        self.watch: Dict[int, Set[str]] = {}
+        self.falsy_reads: List[ast.AST] = []
+        self.loop_exits: List[List[dict]] = []
+        self.frames: List[dict] = []
+        self.uctl = 0
+
+    # ---- values
+    U = _ActVal({_U})
+
+    def join(self, a: Optional[dict], b: Optional[dict], undecided: bool = False) -> Optional[dict]:
+        if a is None:
+            return b
+        if b is None:
+            return a
+        out = {}
+        for k in set(a) | set(b):
+            va, vb = a.get(k), b.get(k)
+            if va is None or vb is None:
+                out[k] = va or vb
+            elif va == vb:
+                out[k] = va
+            elif undecided:
+                out[k] = self.U
+            else:
+                out[k] = _ActVal(va.truth | vb.truth, va.tag if va.tag == vb.tag else None)
+        return out
+
+    @staticmethod
+    def _or(a, b):
+        return {(_T if _T in (x, y) else _U if _U in (x, y) else _F) for x in a for y in b}
+
+    @staticmethod
+    def _and(a, b):
+        return {(_F if _F in (x, y) else _U if _U in (x, y) else _T) for x in a for y in b}
+
+    @staticmethod
+    def _not(a):
+        return {(_F if x == _T else _T if x == _F else _U) for x in a}
+
+    def ev(self, e: Optional[ast.AST], env: dict) -> _ActVal:
+        U = self.U
+        if e is None:
+            return U
+        if isinstance(e, ast.Constant):
+            if e.value is None:
+                return _ActVal({_F}, "NONE")
+            return _ActVal({_T} if e.value else {_F})
+        if isinstance(e, (ast.Dict, ast.List, ast.Tuple, ast.Set)):
+            n = len(e.keys) if isinstance(e, ast.Dict) else len(e.elts)
+            return _ActVal({_T} if n else {_F})
+        if isinstance(e, ast.Name):
+            if e.id in env:
+                return env[e.id]
+            return _ActVal({_T}, "ARGS") if e.id == self.args_param else U
+        if isinstance(e, ast.NamedExpr):
+            v = self.ev(e.value, env)
+            if isinstance(e.target, ast.Name):
+                env[e.target.id] = v
+            return v
+        if isinstance(e, ast.Attribute):
+            b = self.ev(e.value, env)
+            if b.tag in ("ARGS", "ARGV"):
+                return _ActVal({_T, _F}, "ARGV")
+            if b.tag == "CFGOBJ":
+                if e.attr in self.raw_attrs:
+                    return _ActVal({_T}, "RAW")
+                if e.attr == self.parsed_attr:
+                    return _ActVal({_T}, "PARSED")
+                return U
+            if b.tag == "PARSED":
+                t = self.field_truth(e.attr)
+                if t is False:
+                    self.falsy_reads.append(e)
+                return U if t is None else _ActVal({_T} if t else {_F})
+            return U
+        if isinstance(e, ast.UnaryOp) and isinstance(e.op, ast.Not):
+            return _ActVal(self._not(self.ev(e.operand, env).truth))
+        if isinstance(e, ast.BoolOp):
+            vals = [self.ev(v, env) for v in e.values]
+            acc = vals[0].truth
+            for v in vals[1:]:
+                acc = self._or(acc, v.truth) if isinstance(e.op, ast.Or) else self._and(acc, v.truth)
+            return _ActVal(acc)
+        if isinstance(e, ast.IfExp):
+            t = self.ev(e.test, env).truth
+            if t == {_T}:
+                return self.ev(e.body, env)
+            if t == {_F}:
+                return self.ev(e.orelse, env)
+            a, b = self.ev(e.body, env), self.ev(e.orelse, env)
+            if a == b:
+                return a
+            return U if _U in t else _ActVal(a.truth | b.truth, a.tag if a.tag == b.tag else None)
+        if isinstance(e, ast.Compare) and len(e.ops) == 1:
+            op, l, r = e.ops[0], e.left, e.comparators[0]
+            if isinstance(op, (ast.In, ast.NotIn)):
+                rv = self.ev(r, env)
+                if rv.tag == "RAW" and isinstance(l, ast.Constant) and l.value in self.top_keys:
+                    return _ActVal({_T} if isinstance(op, ast.In) else {_F})
+                return U
+            if isinstance(op, (ast.Is, ast.IsNot)) and _is_none(r):
+                lv = self.ev(l, env)
+                res = {_T} if lv.tag == "NONE" else {_F} if lv.truth == {_T} else {_T, _F} if lv.tag == "ARGV" else {_U}
+                return _ActVal(res if isinstance(op, ast.Is) else self._not(res))
+            lv = self.ev(l, env)
+            if lv.tag == "LEN" and isinstance(r, ast.Constant) and type(r.value) is int:  # len(x) compared with 0 / 1: the truth of x
+                pos = {(ast.Gt, 0): True, (ast.NotEq, 0): True, (ast.GtE, 1): True, (ast.Eq, 0): False, (ast.Lt, 1): False, (ast.LtE, 0): False}.get((type(op), r.value))
+                if pos is not None:
+                    return _ActVal(lv.truth if pos else self._not(lv.truth))
+            vs = [self.ev(x, env) for x in (l, r)]
+            if all(v.tag == "ARGV" or isinstance(x, ast.Constant) for v, x in zip(vs, (l, r))):
+                return _ActVal({_T, _F})
+            return U
+        if isinstance(e, ast.Call):
+            nm = call_name(e) or ""
+            if self.is_parse_call(e):
+                return _ActVal({_U}, "CFGOBJ")
+            if nm == "isinstance" and len(e.args) == 2:
+                a = self.ev(e.args[0], env)
+                kinds = {dotted_name(x) for x in (e.args[1].elts if isinstance(e.args[1], ast.Tuple) else [e.args[1]])}
+                if a.tag == "RAW" and kinds and kinds <= {"dict", "Mapping", "MutableMapping", "collections.abc.Mapping", "abc.Mapping", "typing.Mapping"}:
+                    return _ActVal({_T})
+                if a.tag == "NONE":
+                    return _ActVal({_F})
+                return U
+            if nm == "bool" and len(e.args) == 1:
+                return _ActVal(self.ev(e.args[0], env).truth)
+            if nm == "len" and len(e.args) == 1:
+                return _ActVal(self.ev(e.args[0], env).truth, "LEN")
+            if nm in ("dict", "copy.copy", "copy.deepcopy", "copy", "deepcopy") and len(e.args) == 1 and not e.keywords:
+                a = self.ev(e.args[0], env)
+                return a if a.tag == "RAW" else U
+            if isinstance(e.func, ast.Attribute) and e.func.attr == "get" and e.args:
+                b = self.ev(e.func.value, env)
+                if b.tag == "RAW" and isinstance(e.args[0], ast.Constant) and e.args[0].value in self.top_keys:
+                    return _ActVal({_T})
+                return U
+            if nm == "getattr" and e.args and self.ev(e.args[0], env).tag == "ARGS":
+                return _ActVal({_T, _F}, "ARGV")
+            # a helper of the same module: run it on the abstract arguments, its value is the join of what it returns
+            tg = [f for m, f in self.repo.resolve_call(self.mod, e) if m is self.mod and isinstance(f, FuncNode)]
+            if len(tg) == 1 and len(self.frames) < 3 and not isinstance(e.func, ast.Attribute):
+                b = _bind_args(tg[0], e, skip_first=False)
+                if b is not None:
+                    env2 = {p: self.ev(a, env) for p, a in b.items()}
+                    self.frames.append({"rets": [], "taint": False})
+                    saved, self.loop_exits = self.loop_exits, []
+                    try:
+                        end = self.block(tg[0].body, env2)
+                    finally:
+                        self.loop_exits = saved
+                        fr = self.frames.pop()
+                    rets = list(fr["rets"]) + ([_ActVal({_F}, "NONE")] if end is not None else [])
+                    if rets and all(r == rets[0] for r in rets):
+                        return rets[0]
+                    if rets:
+                        tr = frozenset().union(*[r.truth for r in rets])
+                        return _ActVal(tr | ({_U} if fr["taint"] else frozenset()))
+            return U
+        if isinstance(e, ast.Subscript):
+            b = self.ev(e.value, env)
+            if b.tag == "RAW" and isinstance(e.slice, ast.Constant) and e.slice.value in self.top_keys:
+                return _ActVal({_T})
+            return U
+        return U
+
+    # ---- statements
+    def block(self, stmts: List[ast.AST], env: Optional[dict]) -> Optional[dict]:
+        for st in stmts:
+            if env is None:
+                return None
+            env = self.stmt(st, env)
+        return env
+
+    def stmt(self, st: ast.AST, env: dict) -> Optional[dict]:
+        if isinstance(st, ast.Return) and self.frames:
+            fr = self.frames[-1]
+            fr["rets"].append(self.U if (fr["taint"] or self.uctl) else self.ev(st.value, env) if st.value is not None else _ActVal({_F}, "NONE"))
+            return None
+        if isinstance(st, (ast.Return, ast.Raise)):
+            return None
+        if isinstance(st, (ast.Break, ast.Continue)):
+            if self.loop_exits:
+                self.loop_exits[-1].append(env)
+            return None
+        if isinstance(st, (ast.Assign, ast.AnnAssign)):
+            if st.value is None:
+                return env
+            env = dict(env)
+            v = self.ev(st.value, env)
+            for t in (st.targets if isinstance(st, ast.Assign) else [st.target]):
+                if isinstance(t, ast.Name):
+                    env[t.id] = v
+                else:
+                    for x in ast.walk(t):
+                        if isinstance(x, ast.Name) and isinstance(x.ctx, ast.Store):
+                            env[x.id] = self.U
+            return env
+        if isinstance(st, ast.AugAssign):
+            env = dict(env)
+            if isinstance(st.target, ast.Name):
+                env[st.target.id] = self.U
+            return env
+        if isinstance(st, ast.If):
+            t = self.ev(st.test, env).truth
+            if id(st) in self.watch:
+                self.watch[id(st)] |= set(t)
+            env = dict(env)  # assignment expressions in the test
+            und = _U in t
+            self.uctl += 1 if und else 0
+            try:
+                a = self.block(st.body, dict(env)) if t != {_F} else None
+                b = self.block(st.orelse, dict(env)) if t != {_T} else None
+            finally:
+                self.uctl -= 1 if und else 0
+            if und and self.frames and (a is None or b is None):
+                self.frames[-1]["taint"] = True  # what is returned later depends on an undecided test
+            return self.join(a, b, undecided=und)
+        if isinstance(st, (ast.For, ast.AsyncFor, ast.While)):
+            cur = dict(env)
+            self.loop_exits.append([])
+            for _ in range(2):
+                start = dict(cur)
+                if not isinstance(st, ast.While):
+                    for x in ast.walk(st.target):
+                        if isinstance(x, ast.Name):
+                            start[x.id] = self.U
+                end = self.block(st.body, start)
+                cur = self.join(cur, end)
+            for e2 in self.loop_exits.pop():
+                cur = self.join(cur, e2)
+            return self.block(st.orelse, cur) if st.orelse else cur
+        if isinstance(st, (ast.With, ast.AsyncWith)):
+            env = dict(env)
+            for it in st.items:
+                if it.optional_vars is not None:
+                    for x in ast.walk(it.optional_vars):
+                        if isinstance(x, ast.Name):
+                            env[x.id] = self.U
+            return self.block(st.body, env)
+        if isinstance(st, ast.Try):
+            body_end = self.block(st.body, dict(env))
+            at_raise = self.join(dict(env), body_end)  # a handler starts from some state between the two
+            outs = [self.block(st.orelse, body_end) if st.orelse and body_end is not None else body_end]
+            for h in st.handlers:
+                hs = dict(at_raise)
+                if h.name:
+                    hs[h.name] = self.U
+                outs.append(self.block(h.body, hs))
+            res = None
+            for o in outs:
+                res = self.join(res, o)
+            if st.finalbody:
+                if res is None:
+                    self.block(st.finalbody, dict(at_raise))
+                    return None
+                return self.block(st.finalbody, res)
+            return res
+        if isinstance(st, ast.Expr):
+            self.ev(st.value, env)  # assignment expressions
+            return env
+        if isinstance(st, ast.Match):
+            res = None
+            for c in st.cases:
+                res = self.join(res, self.block(c.body, dict(env)), undecided=True)
+            return self.join(res, env, undecided=True)
+        return env
+
+
+def launch_activation_rules(repo: Repo, R: Report, ppc, pnf: ast.AST, block_arg: ast.AST, ctor_hits: List[Tuple[ast.Call, Tuple]]) -> None:
+    """A configuration that declares a run space is executed as a launch.  Decided on one scenario (see _Activation): the test(s)
+    the creation of the launch in _run depends on must hold when the loaded mapping has the block under the top-level key the
+    configuration parser reads it from - whatever the block contains."""
+    r_la = R.rule("C09-D2-launch-activation", "whether _run executes a configuration as a run-space launch (creates the launch, and with it run_space_start / run_space_end and the launch id, attempt, index and context on every pipeline_start) is decided by whether the configuration declares a run-space block (or the command line supplies one), not by what the block contains: evaluated for a configuration that has the block under the top-level key the configuration parser reads it from and leaves every field of the parsed block at its schema default (no blocks, no dry run), with the command line free, every test the create_launch call depends on holds.  Such a block still plans a run (one, from --context alone); executed as a plain run it leaves no run_space_start / run_space_end in the trace and no linkage on pipeline_start, while `inspect` prints a run-space spec id for it", 1)
+    pmod, pfn = ppc
+    cfg_param = next(iter(_params(pnf)), None)
+    top_keys = {k for o in _origins(pnf, block_arg) for kd in [_keyed(o)] if kd is not None and isinstance(kd[0], ast.Name) and kd[0].id == cfg_param and isinstance(kd[1], str) for k in [kd[1]]}
+    if not top_keys:
+        raise AnalysisError(f"{pmod.rel}:{qualname_of(pfn)}: the top-level key the run-space block is read from was not found")
+    # the attribute of the returned object that holds the loaded mapping: the constructor parameter bound to (a copy of) it
+    raw_attrs: Set[str] = set()
+    for c, r in ctor_hits:
+        init = repo.method(r[0], r[1], "__init__")
+        if init is not None and isinstance(init[1], FuncNode):
+            b = _bind_args(init[1], c, skip_first=True)
+            pos = init[1].args.posonlyargs + init[1].args.args
+            if b is None or not pos:
+                continue
+            holders = {p for p, a in b.items() if any(dotted_name(_copied_operand(o) if _copied_operand(o) is not None else o) == cfg_param for o in _origins(pnf, a))}
+            for attr, vals in _object_stores(repo, init[0], init[1], pos[0].arg, r).items():
+                if any(isinstance(x, ast.Name) and x.id in holders for v in vals for x in ast.walk(v)):
+                    raw_attrs.add(attr)
+        else:
+            raw_attrs |= {k.arg for k in c.keywords if k.arg and any(dotted_name(_copied_operand(o) if _copied_operand(o) is not None else o) == cfg_param for o in _origins(pnf, k.value))}
+    run_nf = nfunc(repo, CLI, "_run")
+    cli_mod = repo.module(CLI)
+    creates = [c for c in calls_in(run_nf) if call_attr(c) == "create_launch"]
+    if len(creates) != 1:
+        raise AnalysisError(f"_run: expected one create_launch call, found {len(creates)}")
+    guards = [(a, any(creates[0] is x for s in a.body for x in ast.walk(s))) for a in ancestors(creates[0]) if isinstance(a, ast.If)]
+    if not guards:
+        R.ok(r_la, CLI, "_run", "create_launch(...) is unconditional")
+        return
+    # the class of the parsed block: what the block parser (the function whose result becomes `.run_space`) is annotated to
+    # return / constructs; its field defaults
+    defaults: Dict[str, Optional[bool]] = {}
+    comp = [o for c in calls_in(run_nf) if call_attr(c) == "asdict" and len(c.args) == 1 for o in ([c.args[0]] if isinstance(c.args[0], ast.Attribute) else _origins(run_nf, c.args[0])) if isinstance(o, ast.Attribute)]
+    parsed_attrs = {o.attr for o in comp if any(isinstance(v, ast.Call) and any(f is pfn for _m, f in repo.resolve_call(cli_mod, v)) for v in _origins(run_nf, o.value))}
+    if len(parsed_attrs) != 1:
+        raise AnalysisError(f"_run: the attribute of the parsed configuration that is hashed (asdict(<cfg>.<attr>)) was not found ({sorted(parsed_attrs)})")
+    parsed_attr = next(iter(parsed_attrs))
+    pcls = None
+    for c, r in ctor_hits:
+        init = repo.method(r[0], r[1], "__init__")
+        if init is not None and isinstance(init[1], FuncNode):
+            for a in init[1].args.posonlyargs + init[1].args.args + init[1].args.kwonlyargs:
+                pos = init[1].args.posonlyargs + init[1].args.args
+                stored = _object_stores(repo, init[0], init[1], pos[0].arg, r).get(parsed_attr, []) if pos else []
+                if a.annotation is not None and any(isinstance(x, ast.Name) and x.id == a.arg for v in stored for x in ast.walk(v)):
+                    for x in ast.walk(a.annotation):
+                        rr = repo.resolve_name(init[0], x) if isinstance(x, ast.Name) else None
+                        if rr is not None and isinstance(rr[1], ast.ClassDef):
+                            pcls = rr
+    if pcls is not None:
+        for _m, c in reversed(repo.mro(pcls[0], pcls[1])):
+            for st in c.body:
+                if isinstance(st, ast.AnnAssign) and isinstance(st.target, ast.Name):
+                    v, t = st.value, None
+                    if isinstance(v, ast.Constant):
+                        t = bool(v.value)
+                    elif isinstance(v, ast.Call) and call_name(v) in ("field", "dataclasses.field"):
+                        fac, dv = kwarg(v, "default_factory"), kwarg(v, "default")
+                        if fac is not None and dotted_name(fac) in ("list", "dict", "set", "tuple", "frozenset"):
+                            t = False
+                        elif isinstance(dv, ast.Constant):
+                            t = bool(dv.value)
+                    elif isinstance(v, (ast.List, ast.Dict, ast.Tuple, ast.Set)):
+                        t = bool(v.elts if not isinstance(v, ast.Dict) else v.keys)
+                    defaults[st.target.id] = t
+
+    def is_parse_call(c: ast.Call) -> bool:
+        return any(f is pfn for _m, f in repo.resolve_call(cli_mod, c))
+    args_param = next(iter(_params(run_nf)), "args")
+    act = _Activation(repo, cli_mod, args_param, is_parse_call, raw_attrs, parsed_attr, lambda a: defaults.get(a), top_keys)
+    act.watch = {id(a): set() for a, _b in guards}
+    act.block(run_nf.body, {})
+    key = sorted(top_keys)[0]
+    for a, in_body in guards:
+        seen = act.watch[id(a)]
+        if not seen:
+            raise AnalysisError(f"_run: the test `{norm(a.test)[:60]}` guarding create_launch is not reached in the scenario `{key}: <block with defaults only>`")
+        wrong = _F if in_body else _T
+        if wrong in seen:
+            why = act.falsy_reads[0] if act.falsy_reads else None
+            R.violation(r_la, CLI, "_run", f"if {norm(a.test)[:80]}: ... create_launch(...)",
+                        f"for a configuration that declares `{key}:` with nothing but defaults in it (no blocks; one planned run) and no run-space option on the command line, `{norm(a.test)[:60]}` is {'false' if in_body else 'true'}"
+                        + (f" - it depends on the content of the parsed block (`{norm(why)[:60]}`, line {getattr(why, 'lineno', '?')}), which is empty for such a block" if why is not None else "")
+                        + ": no launch is created, so the run is executed as a plain run - no run_space_start / run_space_end, no launch id / attempt / index / context on pipeline_start (--run-space-launch-id and --run-space-attempt are ignored) - while `semantiva inspect` prints a run-space spec id for the same file",
+                        a.lineno)
+        elif _U in seen:
+            raise AnalysisError(f"_run: whether `{norm(a.test)[:60]}` (guarding create_launch) holds for a declared run-space block is not decided by the activation model")
+        else:
+            R.ok(r_la, CLI, "_run", f"if {norm(a.test)[:80]}: ... create_launch(...)")
 
 
 # ----------------------------------------------------------------------------------------- D2 launch bracket
@@ -3203,8 +3770,16 @@ def freshness_rules(repo: Repo, R: Report, run_nf: ast.AST, g: CFG, loop: ast.Fo
     bad = g.must_pass([s for s in body_starts if not stages(g.nodes[s])], [proc.id], stages) if body_starts else [(0, [])]
     R.check(not bad, r_fr, CLI, "_run", "pipeline.set_run_metadata(...) every iteration before process", "run metadata is not staged for every run", loop.lineno, bad[0][1] if bad else None)
     # Pipeline: metadata consumed once per run
-    SLOT = "self._run_metadata"
+    # the slot is found by its role: the attribute of the Pipeline that set_run_metadata (the interface _run calls) fills
+    sm = nfunc(repo, PIPE, "Pipeline.set_run_metadata", copyprop="all")
+    me_sm = (sm.args.posonlyargs + sm.args.args)[0].arg if (sm.args.posonlyargs + sm.args.args) else "self"
+    slot_attrs = sorted({t.attr for n in walk_no_nested(sm) if isinstance(n, (ast.Assign, ast.AnnAssign, ast.AugAssign)) for t in _flat_store_targets(n)
+                         if isinstance(t, ast.Attribute) and isinstance(t.value, ast.Name) and t.value.id == me_sm})
+    if len(slot_attrs) != 1:
+        raise AnalysisError(f"Pipeline.set_run_metadata: expected exactly one attribute of the pipeline to be filled with the staged metadata, found {slot_attrs}")
     pp = nfunc(repo, PIPE, "Pipeline._process")
+    me_pp = (pp.args.posonlyargs + pp.args.args)[0].arg if (pp.args.posonlyargs + pp.args.args) else "self"
+    SLOT = f"{me_pp}.{slot_attrs[0]}"
     ex_calls = [c for c in calls_in(pp) if call_attr(c) == "execute" and kwarg(c, "run_metadata") is not None]
 
     def _clears(n) -> bool:  # every value the statement stores into the slot is None (also `x, self._run_metadata = ..., None`)
@@ -3236,10 +3811,9 @@ def freshness_rules(repo: Repo, R: Report, run_nf: ast.AST, g: CFG, loop: ast.Fo
             restaged = [d for d in dirty_ids if d in after_ex and d != exn.id and gp.must_pass([d], [exit_id], lambda n: n.id in valid)]
             # a start that is itself the exit (execute raises straight out of the function) never clears
             direct = staged_at_ex and exit_id in starts
-            R.check(not miss and not direct and not restaged, r_fr, PIPE, "Pipeline._process", f"self._run_metadata = None on exit {label} after execute", "staged run metadata survives a run that ends this way: a later run of the same Pipeline reports the previous run's index, context and launch", exn.line, miss[0][1] if miss else None)
+            R.check(not miss and not direct and not restaged, r_fr, PIPE, "Pipeline._process", f"<staged run metadata slot> = None on exit {label} after execute", "staged run metadata survives a run that ends this way: a later run of the same Pipeline reports the previous run's index, context and launch", exn.line, miss[0][1] if miss else None)
     # set_run_metadata keeps its own copy: whatever it stores into the slot is a copy of the argument / a fresh literal
-    sm = nfunc(repo, PIPE, "Pipeline.set_run_metadata", copyprop="all")
-    stored = [o for v in _assigned(sm, SLOT) for o in _origins_attr_terminal(sm, v)]
+    stored = [o for v in _assigned(sm, f"{me_sm}.{slot_attrs[0]}") for o in _origins_attr_terminal(sm, v)]
     ok = bool(stored) and all(_copied_operand(o) is not None or (isinstance(o, ast.Call) and call_attr(o) == "dict") or isinstance(o, (ast.Dict, ast.DictComp)) or _is_none(o) for o in stored)
     R.check(ok, r_fr, PIPE, "Pipeline.set_run_metadata", "self._run_metadata = dict(metadata or {})", "run metadata stored by reference", sm.lineno)
 
